@@ -17,9 +17,11 @@
 package main
 
 import (
+	"bytes"
 	"encoding/json"
 	"fmt"
 	"os"
+	"os/exec"
 	"reflect"
 	"runtime/debug"
 	"sort"
@@ -508,6 +510,10 @@ func (d *diff) doDefrag() {
 	wantReal := []string{}
 	for c := 0; c < nc; c++ {
 		before[c] = d.a.VerifClassState(c, 1<<22)
+		if len(before[c].Errs) > 0 {
+			d.prop("pointer-chain", fmt.Sprintf("class %d before defrag: %s", c, strings.Join(before[c].Errs, "; ")))
+			return
+		}
 		if before[c].Cap > 0 && int(before[c].FreeSlots)/int(before[c].Cap) > 12 {
 			wantReal = append(wantReal, strconv.Itoa(c))
 		}
@@ -724,6 +730,7 @@ func bucket(n int) string {
 // runTrace executes one trace on a fresh allocator and a reset model. every = compare full class state
 // every that many steps (1 = always).
 func runTrace(tr *Trace, every int) {
+	announce(tr)
 	defer func() {
 		if x := recover(); x != nil {
 			r.PropFail("panic", fmt.Sprintf("trace %q: allocator panicked / faulted: %v", tr.Name, x), tr)
@@ -1025,6 +1032,7 @@ func runConcurrent(name string, g *vlib.Rng, workers, phases, opsPerPhase int, b
 }
 
 func concurrentBody(name string, seed uint64, workers, phases, opsPerPhase int, bs []int, hint int, replay interface{}) {
+	announce(replay)
 	a := memory.NewAllocator()
 	reg := newRegistry()
 	var fmu sync.Mutex
@@ -1273,8 +1281,66 @@ func replayFile(path string, bs []int) {
 	fmt.Println("replay file holds no trace (a broken proof obligation has no input to replay); re-run ./check C20 quick")
 }
 
+// announce writes the case that is about to run, so that the supervising parent can name it when the
+// allocator brings the process down (a fault inside a goroutine started by the library is fatal).
+func announce(doc interface{}) {
+	if f := os.Getenv("C20_CURFILE"); f != "" {
+		b, _ := json.Marshal(doc)
+		os.WriteFile(f, b, 0644)
+	}
+}
+
+// supervise re-executes this binary as a child doing the real work. Exit 0/1 of the child is passed on;
+// anything else (fatal fault, runtime abort) is reported as a property failure on the announced case.
+func supervise() {
+	dir, err := os.MkdirTemp("", "vc20")
+	if err != nil {
+		fmt.Println("cannot create temp dir:", err)
+		os.Exit(3)
+	}
+	cur := dir + "/current.json"
+	cmd := exec.Command(os.Args[0], os.Args[1:]...)
+	cmd.Env = append(os.Environ(), "C20_CHILD=1", "C20_CURFILE="+cur)
+	cmd.Stdout = os.Stdout
+	var errb bytes.Buffer
+	cmd.Stderr = &errb
+	runErr := cmd.Run()
+	code := 0
+	if runErr != nil {
+		code = -1
+		if ee, ok := runErr.(*exec.ExitError); ok {
+			code = ee.ExitCode()
+		}
+	}
+	b, _ := os.ReadFile(cur)
+	os.RemoveAll(dir)
+	if code == 0 || code == 1 {
+		os.Stderr.Write(errb.Bytes())
+		os.Exit(code)
+	}
+	if code == 3 {
+		os.Stderr.Write(errb.Bytes())
+		os.Exit(3)
+	}
+	var doc interface{}
+	json.Unmarshal(b, &doc)
+	msg := errb.String()
+	if i := strings.Index(msg, "\n\n"); i > 0 {
+		msg = msg[:i]
+	}
+	if len(msg) > 600 {
+		msg = msg[:600]
+	}
+	r.PropFail("fatal-fault", "the allocator brought the process down while running the recorded case: "+strings.Join(strings.Fields(msg), " "), doc)
+	r.Finish("the run was aborted by a fatal fault in the real allocator", "supervisor report: the child process running the traces died")
+}
+
 func main() {
 	r = vlib.NewRun("C20")
+	if os.Getenv("C20_CHILD") == "" {
+		supervise()
+		return
+	}
 	var err error
 	o, err = vlib.StartOracle("c20")
 	if err != nil {
